@@ -145,6 +145,10 @@ class Multiline:
     for of in gfa_line.tagnames:
       self._check_mergeable(of, gfa_line.get(of), gfa_line.get_datatype(of))
     saved = self._save_tags()
+    # (the VN tag of a merged line is not a further declaration of the
+    # version: the Gfa has seen the line already)
+    declaring = self.__dict__.get("_declaring_version", False)
+    self.__dict__["_declaring_version"] = True
     try:
       for of in gfa_line.tagnames:
         # (a copy: the merged line keeps its own values)
@@ -158,6 +162,8 @@ class Multiline:
       # all tags of the line are merged or none
       self._restore_tags(saved)
       raise
+    finally:
+      self.__dict__["_declaring_version"] = declaring
     return self
 
   def _check_mergeable(self, tagname, value, datatype):
